@@ -39,7 +39,7 @@ class Slot:
 class ModSim(Sim):
     PROP = "C12"
     NAME = "modsim"
-    QUICK_RUNS = 16000
+    QUICK_RUNS = 32000
     THOROUGH_RUNS = 400000
     MAX_EVENTS = 50
     PROBES = ["shared_parameter_two_names", "shared_module_two_parents", "reassign_module_to_param", "reassign_param_to_module",
